@@ -13,6 +13,8 @@ pub struct ExContext<'a>(std::task::Context<'a>);
 pub uninterp spec fn cx_waker(cx: &Context<'_>) -> Waker;
 pub assume_specification<'a, 'b> [Context::<'a>::waker] (cx: &'b Context<'a>) -> (r: &'a Waker)
     ensures *r == cx_waker(cx);
+/// (not used by the unchanged tree; an edit may start to use it) ASSUMED: nothing -- the answer is arbitrary
+pub assume_specification [Waker::will_wake] (w: &Waker, other: &Waker) -> (r: bool);
 pub assume_specification [<Waker as Clone>::clone] (w: &Waker) -> (r: Waker)
     ensures r == *w;
 #[verifier::external_type_specification] #[verifier::accept_recursive_types(T)]
